@@ -91,7 +91,7 @@ def coq_files():
     out = []
     for root, _dirs, files in os.walk(COQ):
         for f in files:
-            if f.endswith(".v"):
+            if f.endswith(".v") and not re.match(r"(zz|tmp|scratch|test_)", f, re.I):
                 out.append(os.path.relpath(os.path.join(root, f), COQ))
     return sorted(out)
 
